@@ -16,6 +16,7 @@ import Proofs.PairSetup
 import Proofs.PairSetupOrigin
 import Proofs.PairSetupSym
 import Proofs.PairSetupHybrid
+import Proofs.PairSetupMitm
 import HapModel.Gen.SrpGroup
 namespace Hap.C01
 open Hap Hap.Tlv Hap.Srp Hap.PairSetup
@@ -397,6 +398,26 @@ theorem C01_noforge_needs_nondegenerate :
     PairSetupHybrid.interp I Mt = PairSetupHybrid.interp I (PairSetupSym.expM salt b At) := by
   refine ⟨by simp [PairSetupSym.safe], by simp, by decide +kernel⟩
 
+/-- **Pairing origin, symbolically, with the attacker as man in the middle** (honest controller in the
+    picture; terms, derivability and message formats as in `C01_symbolic`, whose expected-proof term
+    denotes the executable model's proof by `C01_symbolic_format`).  The honest controller knows the code;
+    for any exchange whose `B` it is handed it emits its M3 `(g^a, M)` and, at any time, its M5 ciphertext;
+    the attacker sees everything, delivers / drops / re-orders / replays at will, and sends derivable
+    messages of its own; it does not know the code.  In EVERY reachable state:
+    (a) a recorded success (the accessory has issued its proof) means the `A` in force is the public value
+        of an honest controller session run against the CURRENT exchange — relaying the honest M3 is the
+        only way to obtain O1, and an honest M3 replayed into a later exchange (other salt, other `b`) is
+        refused;
+    (b) a recorded pairing carries the identifier and the long-term key that an honest controller put into
+        its own M5 — the attacker cannot substitute its key;
+    (c) the setup code is still not derivable. -/
+theorem C01_mitm_pairing_origin (s : PairSetupMitm.MState) (hr : PairSetupMitm.MReach PairSetupMitm.init s) :
+    (s.verified = true →
+      ∃ x, s.hon x ∧ s.sess = some (x.salt, x.b) ∧ s.lastA = some (PairSetupSym.Tm.gexp x.a)) ∧
+    (∀ i p, s.paired = some (i, p) → ∃ x, s.hon x ∧ i = x.id ∧ p = PairSetupSym.Tm.pk x.sk) ∧
+    ¬ PairSetupSym.Der s.kn PairSetupSym.Tm.code :=
+  PairSetupMitm.mitm_secure s hr
+
 /-- the same symbolic accessory without the `A ≠ zero` test (the shipped code): an attacker knowing only
     public values gets its own key paired (`A = zero`, proof from public data, M5 under `H(zero)`). -/
 theorem C01_symbolic_legacy_attack :
@@ -516,5 +537,11 @@ example :
     (by decide +kernel) (by decide +kernel)
   refine ⟨_, _, PairSetupHybrid.HReach.step _ (PairSetupHybrid.HReach.step _ PairSetupHybrid.HReach.refl st1) st2, ?_⟩
   decide +kernel
+
+/-- `C01_mitm_pairing_origin` is not vacuous: with the attacker merely relaying, the honest controller's
+    exchange reaches a recorded success and then a recorded pairing with ITS identifier and key -/
+example : ∃ s, PairSetupMitm.MReach PairSetupMitm.init s ∧ s.verified = true ∧
+    s.paired = some (PairSetupSym.Tm.nonce 50, PairSetupSym.Tm.pk (PairSetupSym.Tm.sec 101)) :=
+  PairSetupMitm.mitm_honest_run
 
 end Hap.C01
